@@ -147,6 +147,25 @@ def main(argv=None):
     with open(os.path.join(VERIF, "evidence", a.pid + ".json"), "w") as fh:
         json.dump(ev, fh, indent=1)
 
+    # counterexample search: for an arithmetic obligation of a function that has a Kani kernel, ask CBMC for concrete values
+    cx_for = {}
+    try:
+        from . import kani as _kani
+        wanted = {}
+        for name, c, r in violations:
+            fr = c.get("frag")
+            if c["kind"] == "overflow" and fr is not None:
+                h = _kani.CX_KERNELS.get((fr.file, fr.name))
+                if h:
+                    wanted.setdefault(h, []).append(name)
+        if wanted:
+            for kr in _kani.run_jobs(sorted(wanted), tier, playback=True):
+                if kr["status"] == "failed" and kr.get("concrete"):
+                    for name in wanted[kr["harness"]]:
+                        cx_for[name] = {"harness": kr["harness"], "failed_checks": kr.get("failed_checks"), "playback_unit_test": kr["concrete"], "cmd": kr.get("cmd")}
+    except Exception as e:  # noqa: the counterexample search is best effort
+        print("note: counterexample search skipped: %r" % (e,))
+
     for k, name, c in known_hits:
         print("KNOWN-FINDING: property=%s %s" % (a.pid, k.get("what", name)))
     rc = 0
@@ -160,6 +179,8 @@ def main(argv=None):
             safe = re.sub(r"[^A-Za-z0-9_.-]+", "_", name)[:120]
             rp = os.path.join(VERIF, "replay", "%s-%s.json" % (a.pid, safe))
             cx = c.get("kani", {}).get("concrete") if c.get("kani") else None
+            if cx is None and name in cx_for:
+                cx = cx_for[name]
             doc = {
                 "property": a.pid, "obligation": name, "kind": c["kind"], "repo_site": c["site"],
                 "offending_source_text": c.get("orig_text"), "message": c["message"],
